@@ -50,7 +50,8 @@ def gen_source(rng, size=None):
             if k < 0.45:
                 L.append("INTEGER(%d)" % rng.choice([0, 1, -1, 300, -32768, 65535, 42]))
             elif k < 0.7:
-                L.append('LP_STRING("%s")' % rng.choice(["hi", "x y", "", "abc"]))
+                # ... some with a literal that runs over two or three source lines
+                L.append('LP_STRING("%s")' % rng.choice(["hi", "x y", "", "abc", "two\nlines", "a\n\nb", "hi"]))
             else:
                 L.append("DSKIP(%d)" % rng.choice([1, 3]))
     if rng.random() < 0.5:
@@ -800,6 +801,12 @@ def gen_tree(rng, symbols, depth=0, maxdepth=4):
                                        ("int", 65535), ("bin", "-", ("int", 0), ("int", 1)), ("int", 0xC001), ("int", 0xC000),
                                        ("bin", "-", ("reg", 0), ("int", 3))]))
         return ("mem", gen_tree(rng, symbols, depth + 1, maxdepth))
+    if rng.random() < 0.06:
+        # the one quotient that leaves the range: a dividend above 32768 by -1 (seed C14i dropped the range check of
+        # division, "a quotient is never larger than its dividend")
+        big = rng.choice([("int", 32769), ("int", 40000), ("int", 65535), ("bin", "+", ("int", 32768), ("int", 1)),
+                          ("bin", "*", ("int", 256), ("int", 255)), ("int", 32768)])
+        return ("bin", "/", big, rng.choice([("neg", ("int", 1)), ("neg", ("int", 1)), ("bin", "-", ("int", 0), ("int", 1)), ("neg", ("int", 2))]))
     if rng.random() < 0.2:
         # operands chosen at the edges of -32768..65535
         edge = lambda: rng.choice([("int", 65535), ("int", 32768), ("int", 32769), ("int", 40000), ("neg", ("int", 32768)),
